@@ -35,6 +35,13 @@ def draw(rng, index, tier, shipped_share):
     for vm, description in case["suite_spec"]["vms"].items():
         roll = rng.random()
         case["vm_strs"][vm] = f"only {description['variants'][0]}\n" if roll < 0.6 else ("" if roll < 0.85 else f"only {description['variants'][-1]}\n")
+    if rng.random() < 0.2:
+        # a worker with object restrictions named first, followed by workers that support more variants, and an unrestricted vm
+        kind = rng.choice(["lxc", "remote"])
+        first = rng.choice(["net5", "net3"]) if kind == "lxc" else rng.choice(["cluster2.net9", "cluster1.net7"])
+        others = [n for n in (travgen.LXC if kind == "lxc" else travgen.CLUSTER) if n != first]
+        case["nets"], case["worker_kind"] = " ".join([first] + rng.sample(others, rng.randint(1, 2))), kind
+        case["vm_strs"]["vm1"] = ""
     return case
 
 
